@@ -1,5 +1,6 @@
 From Coq Require Import ZArith List Ascii.
-From Cspuz Require Import Lib.PyErr Codec.Comb Codec.CombWf Codec.CombBasics Codec.CombLeaf Codec.CombRoundTrip.
+From Cspuz Require Import Lib.PyErr Codec.Comb Codec.CombWf Codec.CombBasics Codec.CombLeaf Codec.CombRoundTrip
+  Codec.RoomsGrid Codec.RoomsFill Codec.RoomsProofs.
 Import ListNotations.
 Local Open Scope Z_scope.
 
@@ -20,10 +21,17 @@ Theorem problem_roundtrip : forall c v h w s, 1 <= h -> 1 <= w -> wf c = true ->
 Proof. exact CombRoundTrip.problem_roundtrip. Qed.
 Print Assumptions problem_roundtrip.
 
-(* the same for terms that contain Rooms / ValuedRooms, given the round trip of those two combinators *)
-Theorem roundtrip_given_rooms : forall e c, env_ok e -> rooms_hyp e -> wf c = true -> RT e c.
-Proof. exact CombRoundTrip.roundtrip_given_rooms. Qed.
-Print Assumptions roundtrip_given_rooms.
+(* all well-formed terms, Rooms and ValuedRooms included: room partitions in canonical order
+   (rooms by least cell, cells row-major; CombWf.accepts) come back unchanged, values attached *)
+Theorem roundtrip_with_rooms : forall e c, env_ok e -> wf c = true -> RT e c.
+Proof. exact roundtrip_all. Qed.
+Print Assumptions roundtrip_with_rooms.
+
+(* the decoder on the border bitmaps of a canonical partition rebuilds exactly that partition *)
+Theorem decode_borders_canonical : forall H W rs allow, canonical_rooms (Z.of_nat H) (Z.of_nat W) rs ->
+  rooms_of_borders (Z.of_nat H) (Z.of_nat W) allow (vg H W (rid_of rs)) (hg H W (rid_of rs)) = Ok (rooms_to_pv rs).
+Proof. intros H W rs allow (Hv & Hc & Hh). exact (RoomsProofs.decode_borders_canonical H W rs Hv Hc Hh allow). Qed.
+Print Assumptions decode_borders_canonical.
 
 (* leading characters: what serialization emits starts in the first set; a strict term decodes nothing else *)
 Theorem first_of_ser : forall e c, env_ok e -> wf c = true -> rooms_free c = true -> FS e c.
